@@ -85,11 +85,23 @@ func (e *apiEnv) concRequests(r interface{ Intn(int) int }, n int) []concReq {
 		q := url.Values{"namespace": {"Doc"}, "object": {obj}, "relation": {rel}, "subject_id": {sub}}
 		switch r.Intn(4) {
 		case 0:
-			target := check.OpenAPIRouteBase + "?" + q.Encode()
-			reqs = append(reqs, concReq{"check " + q.Encode(), func() string {
-				c, b, p := e.do(e.read, "GET", target, nil)
-				return canonBody(c, b) + p
-			}})
+			// the same relationship under different request depths side by side (the nested
+			// groups need four indirections): a request's depth is its own
+			depths := []string{"", "1", "2", "3", "4"}
+			for rep, nrep := 0, 1+r.Intn(3); rep < nrep; rep++ {
+				qq := url.Values{}
+				for k, v := range q {
+					qq[k] = v
+				}
+				if d := depths[r.Intn(len(depths))]; d != "" {
+					qq.Set("max-depth", d)
+				}
+				target := check.OpenAPIRouteBase + "?" + qq.Encode()
+				reqs = append(reqs, concReq{"check " + qq.Encode(), func() string {
+					c, b, p := e.do(e.read, "GET", target, nil)
+					return canonBody(c, b) + p
+				}})
+			}
 		case 1:
 			var ts []*ketoapi.RelationTuple
 			for k := 0; k < 1+r.Intn(6); k++ {
